@@ -238,6 +238,32 @@ def handle(req: Dict[str, Any]) -> Any:
             except Exception as e:  # noqa
                 out.append(("error", f"{type(e).__name__}: {e}"))
         return out
+    if op == "history":
+        # what this process did earlier: client handshakes that settled on the given revisions (in-memory peer)
+        import asyncio
+
+        import anyio
+
+        from chuk_mcp.protocol.messages.initialize.send_messages import send_initialize
+        from chuk_mcp.protocol.messages.json_rpc_message import parse_message
+
+        async def go(version: str) -> Any:
+            s_send, s_recv = anyio.create_memory_object_stream(10)
+            c_send, c_recv = anyio.create_memory_object_stream(10)
+
+            async def server() -> None:
+                msg = await s_recv.receive()
+                w = msg.model_dump(exclude_none=True) if hasattr(msg, "model_dump") else msg
+                await c_send.send(parse_message({"jsonrpc": "2.0", "id": w["id"], "result": {"protocolVersion": version, "capabilities": {}, "serverInfo": {"name": "earlier-peer", "version": "1"}}}))
+                with anyio.move_on_after(0.2):
+                    await s_recv.receive()
+
+            async with anyio.create_task_group() as tg:
+                tg.start_soon(server)
+                r = await send_initialize(c_recv, s_send, timeout=5)
+            return getattr(r, "protocolVersion", None)
+
+        return [asyncio.run(go(v)) for v in req["handshakes"]]
     if op == "apply":
         # [(function target, [(model target | None, wire)], kwargs)] -> what the function returns, observed as a transport would
         import asyncio
